@@ -172,7 +172,7 @@ def rand_int_arg(rng, verb):
     if verb in ("FAKE_TOA", "FAKE_CI", "FAKE_RSSI"):
         return rng.choice([-300, -70, -5, 0, 0, 1, 3, 30, 200, 1000])
     if verb == "FAKE_TRXC_DELAY":
-        return rng.choice([0, 5, 0, 5, -1, -100, 1000])
+        return rng.choice([0, 5, 0, 5, -1, -100, 1000, 9223372036854, 9223372036855, 10 ** 30])      # the last two: more than time.sleep() takes
     return rng.choice([-1, 0, 1, 7, 100])
 
 
@@ -189,7 +189,7 @@ def rand_cmd(rng, wellformed=True):
         args = [rand_int_arg(rng, verb) for _ in range(argc)]
     toks = [verb] + [str(a) for a in args]
     if not wellformed:
-        how = rng.below(8)
+        how = rng.below(9)
         if how == 0 and len(toks) > 1:
             toks[rng.range(1, len(toks) - 1)] = rng.choice(["abc", "", "1.5", "0x10", "--1", "1_000", "_1", "1__0", "+7", " 5", "5\t", "\t", "-", "+", "00012", "-0"])
         elif how == 1:
@@ -204,6 +204,9 @@ def rand_cmd(rng, wellformed=True):
             return list((rng.choice(["RSP ", "IND ", "cmd ", "", "CM"]) + " ".join(toks) + "\0").encode())
         elif how == 6:
             toks[0] = toks[0].lower() if rng.chance(1, 2) else toks[0] + "X"
+        elif how == 8 and len(toks) > 1:
+            # a huge (or hugely negative) value IN PLACE of an argument: beyond int32 / int64 / what a float or time.sleep() can hold
+            toks[rng.range(1, len(toks) - 1)] = str(rng.choice([1, -1]) * 10 ** rng.choice([10, 13, 19, 30, 400]))
         else:
             toks.append(str(10 ** rng.choice([10, 12, 14])))
     return list(("CMD " + " ".join(toks) + "\0").encode("utf-8"))
